@@ -52,7 +52,12 @@ class Meter:
                     Meter.limit = None
                     raise Budget()
 
-        common.use_private_ids(0, Counter)
+        # keep counting where the current counter stands: nodes that exist
+        # already must not get their ids handed out again
+        from ddsmt.nodes import Node as _N
+        cur = _N.__dict__.get('_Node__ID_COUNTER')
+        start = getattr(cur, 'value', 0) if cur is not None else 0
+        common.use_private_ids(start, Counter)
 
         def on_alarm(signum, frame):
             if Meter.limit is not None:
